@@ -186,6 +186,9 @@ type c09Enc struct {
 	Wide bool // integers in a wider-than-necessary width
 	F32  bool // floats as float32 where exact
 	Peer bool // sent to another node first; arrives from that node's real DirectTransmission
+	// IntAsF64 (naming hybrids only): integers as msgpack float64, which is the Go type a JSON
+	// number decodes to
+	IntAsF64 bool
 }
 
 func (e c09Enc) String() string {
@@ -210,12 +213,17 @@ type c09Variant struct {
 	Enc      []c09Enc // per span
 	OneBatch bool     // all spans in one request (batch and OTLP paths)
 	Shuffle  uint64   // seed for the payload key order
+	// FlagFields (naming hybrids only): the numeric wire-type flags apply to these fields only
+	FlagFields map[string]bool
 }
 
 // c09Wire renders a logical value for a msgpack/JSON path.
 func c09Wire(v c09Val, e c09Enc, rng *verifkit.Rand) E3Val {
 	switch v.K {
 	case c09Int:
+		if e.IntAsF64 {
+			return VF64(float64(v.I))
+		}
 		if e.Uint && v.I >= 0 {
 			w := 0
 			if e.Wide {
@@ -248,7 +256,7 @@ func c09Wire(v c09Val, e c09Enc, rng *verifkit.Rand) E3Val {
 }
 
 // c09Data is the payload map of one span under an encoding.
-func c09Data(tr *c09Trace, i int, e c09Enc, shuffle uint64) E3Val {
+func c09Data(tr *c09Trace, i int, e c09Enc, shuffle uint64, flagFields map[string]bool) E3Val {
 	sp := tr.Spans[i]
 	rng := verifkit.NewRand(shuffle).Fork(sp.ID)
 	kvs := []E3KV{KV("verif.id", VStr(sp.ID))}
@@ -259,7 +267,11 @@ func c09Data(tr *c09Trace, i int, e c09Enc, shuffle uint64) E3Val {
 		}
 	}
 	for _, f := range sp.Fields {
-		kvs = append(kvs, KV(f.Name, c09Wire(f.Val, e, rng)))
+		fe := e
+		if flagFields != nil && !flagFields[f.Name] {
+			fe.Uint, fe.Wide, fe.F32, fe.IntAsF64 = false, false, false, false
+		}
+		kvs = append(kvs, KV(f.Name, c09Wire(f.Val, fe, rng)))
 	}
 	verifkit.Shuffle(rng, kvs)
 	return VMap(kvs...)
@@ -679,7 +691,7 @@ func (g *c09Rig) ingest(tr *c09Trace, v c09Variant) (spans []*types.Span, proble
 			}
 			var items []E3BatchItem
 			for _, i := range is {
-				d := c09Data(tr, i, v.Enc[i], v.Shuffle)
+				d := c09Data(tr, i, v.Enc[i], v.Shuffle, v.FlagFields)
 				items = append(items, E3BatchItem{Data: &d})
 			}
 			req, err := e3BatchReq(E3Incoming, enc, "ds", c09APIKey, items)
@@ -707,7 +719,7 @@ func (g *c09Rig) ingest(tr *c09Trace, v c09Variant) (spans []*types.Span, proble
 				if e.Path == c09EventMsgp {
 					enc = E3Msgpack
 				}
-				req, err := e3EventReq(E3Incoming, enc, "ds", c09APIKey, c09Data(tr, i, e, v.Shuffle), -1, "")
+				req, err := e3EventReq(E3Incoming, enc, "ds", c09APIKey, c09Data(tr, i, e, v.Shuffle, v.FlagFields), -1, "")
 				if err != nil {
 					return "event request: " + err.Error()
 				}
@@ -1212,29 +1224,136 @@ func (g *c09Rig) runCase(tr *c09Trace, smp c09Sampler, variants []c09Variant, or
 						cands = append(cands, cand{part, cls})
 					}
 				}
-				if len(cands) > 1 {
-					// narrow down: re-encode only the spans that show one class for one part
-					var narrowed []cand
-					for _, c := range cands {
-						h := c09Variant{Name: "hybrid-" + c.cls, Shuffle: v.Shuffle, Enc: append([]c09Enc(nil), ref.Enc...)}
+				// hybrid: the reference encoding, except that the fields the given candidates
+				// read get, on the spans that show the candidate's class, the wire type that
+				// decodes to the Go type seen in the variant
+				hybrid := func(cs []cand) c09Variant {
+					h := c09Variant{Name: "hybrid", Shuffle: v.Shuffle, Enc: append([]c09Enc(nil), ref.Enc...), FlagFields: map[string]bool{}}
+					for _, c := range cs {
+						for _, f := range c.part.Fields {
+							h.FlagFields[strings.TrimPrefix(f, "root.")] = true
+						}
 						for i := 0; i < n; i++ {
 							for _, pr := range c09TypePairs(c.part.Fields, sa, sb, rootIdx, i) {
-								if pr == c.cls {
-									h.Enc[i] = v.Enc[i]
+								if pr != c.cls {
+									continue
+								}
+								switch c.cls {
+								case "int64-vs-uint64":
+									h.Enc[i].Uint = true
+								case "float32-vs-float64":
+									h.Enc[i].F32 = true
+								case "float64-vs-int64":
+									h.Enc[i].IntAsF64 = true
+								default:
+									h.Enc[i], h.FlagFields = v.Enc[i], nil
 								}
 							}
 						}
-						eh, _, ph, _ := g.decide(pc, tr, h, ident)
-						if ph != "" {
+					}
+					return h
+				}
+				reproduces := func(cs []cand) bool {
+					eh, _, ph, _ := g.decide(pc, tr, hybrid(cs), ident)
+					if ph != "" {
+						return false
+					}
+					same, _ := c09Same(ea.Out, eh.Out)
+					return !same
+				}
+				if len(p.Parts) > 1 && len(cands) > 1 {
+					// whole-rule probe: keep the conditions that are type-sensitive by themselves
+					// on one of the spans in question (that span alone, plus a root span reduced
+					// to the root. fields the condition reads)
+					var sensitive []cand
+					for _, c := range cands {
+						var single *c09Probe
+						for _, q := range probes {
+							if q.Parts[0].Mechanism == c.part.Mechanism && strings.Join(q.Parts[0].Fields, ",") == strings.Join(c.part.Fields, ",") &&
+								len(q.Sampler.Rules) == 1 {
+								single = q
+							}
+						}
+						if single == nil {
 							continue
 						}
-						if same, _ := c09Same(ea.Out, eh.Out); !same {
+						h := hybrid([]cand{c})
+						if h.FlagFields == nil {
+							continue
+						}
+						hit := false
+						for i := 0; i < n && !hit; i++ {
+							if len(c09TypePairs(c.part.Fields, sa, sb, rootIdx, i)) == 0 {
+								continue
+							}
+							sub := &c09Trace{TraceID: tr.TraceID, OTLP: tr.OTLP, traceID: tr.traceID, Spans: []c09Span{tr.Spans[i]}}
+							encs := []c09Enc{h.Enc[i]}
+							if rootIdx >= 0 && rootIdx != i {
+								rs := tr.Spans[rootIdx]
+								var kept []c09Field
+								for _, f := range rs.Fields {
+									keep := strings.HasPrefix(f.Name, "trace.") || strings.HasPrefix(f.Name, "meta.")
+									for _, pf := range c.part.Fields {
+										if pf == "root."+f.Name {
+											keep = true
+										}
+									}
+									if keep {
+										kept = append(kept, f)
+									}
+								}
+								rs.Fields = kept
+								sub.Spans = append(sub.Spans, rs)
+								encs = append(encs, h.Enc[rootIdx])
+							}
+							subIdent := make([]int, len(sub.Spans))
+							for k := range subIdent {
+								subIdent[k] = k
+							}
+							sc := probeCfg(single)
+							e1, _, q1, _ := g.decide(sc, sub, c09Uniform("sub-reference", len(sub.Spans), c09Enc{Path: c09BatchMsgp}, true, 1), subIdent)
+							e2, _, q2, _ := g.decide(sc, sub, c09Variant{Name: "sub-hybrid", Shuffle: v.Shuffle, Enc: encs, FlagFields: h.FlagFields}, subIdent)
+							if q1 == "" && q2 == "" {
+								if same, _ := c09Same(e1.Out, e2.Out); !same {
+									hit = true
+								}
+							}
+						}
+						if hit {
+							sensitive = append(sensitive, c)
+						}
+					}
+					if len(sensitive) > 0 {
+						cands = sensitive
+					}
+				}
+				if len(cands) > 1 {
+					// which single candidates reproduce the disagreement?
+					var narrowed []cand
+					for _, c := range cands {
+						if reproduces([]cand{c}) {
 							narrowed = append(narrowed, c)
 						}
 					}
-					// no single class reproduces it: the disagreement needs several of them at
-					// once (e.g. a trace-scope condition satisfied by an integer on one span and
-					// by a float on another); every class involved is named
+					if len(narrowed) == 0 {
+						// it needs several at once (e.g. a trace-scope condition satisfied by an
+						// integer on one span and by a float on another): a candidate is named
+						// when leaving it out makes the disagreement disappear
+						for k := range cands {
+							rest := append(append([]cand(nil), cands[:k]...), cands[k+1:]...)
+							if !reproduces(rest) {
+								narrowed = append(narrowed, cands[k])
+							}
+						}
+					}
+					if len(narrowed) == 0 {
+						// presence conditions cannot depend on a value's type
+						for _, c := range cands {
+							if c.part.Mechanism != "rules/presence" {
+								narrowed = append(narrowed, c)
+							}
+						}
+					}
 					if len(narrowed) > 0 {
 						cands = narrowed
 					}
@@ -1387,6 +1506,17 @@ func c09Grid() []c09GridCase {
 		text := c09Text(v)
 		add("starts-with", rule(c09Cond{Fields: []string{"f0"}, Op: "starts-with", Values: []c09Val{c09S(text[:(len(text)+1)/2])}}))
 		add("contains", rule(c09Cond{Fields: []string{"f0"}, Op: "contains", Values: []c09Val{c09S(text)}}))
+		// the last mantissa digits: %v of a float32 drops them
+		digits := strings.NewReplacer(".", "", "-", "").Replace(strings.SplitN(strconv.FormatFloat(func() float64 {
+			if v.K == c09Int {
+				return float64(v.I)
+			}
+			return v.F
+		}(), 'e', -1, 64), "e", 2)[0])
+		if len(digits) > 4 {
+			digits = digits[len(digits)-4:]
+		}
+		add("contains-digits", rule(c09Cond{Fields: []string{"f0"}, Op: "contains", Values: []c09Val{c09S(digits)}}))
 		add("does-not-contain", rule(c09Cond{Fields: []string{"f0"}, Op: "does-not-contain", Values: []c09Val{c09S("e+")}}))
 		add("matches", rule(c09Cond{Fields: []string{"f0"}, Op: "matches", Values: []c09Val{c09S(`^[0-9]+(\.[0-9]+)?$`)}}))
 		add("bool", rule(c09Cond{Fields: []string{"f0"}, Op: "=", Datatype: "bool", Values: []c09Val{c09B(false)}}))
